@@ -46,6 +46,7 @@ type world struct {
 	vlen  int
 	pend  *pendingOp // the operation in flight (set before the call, cleared when it returns)
 	stepKeys []string // keys the history alphabet writes (default: keys)
+	otherOpened bool  // another database of the same process has been opened
 }
 
 type pendingOp struct {
